@@ -71,12 +71,19 @@ class RepoAnalyzer(Analyzer):
 
     # magic-bitboard pointer arithmetic: in-bounds offsets are the subject of C15 (proof); here only the
     # location is checked - any other pointer arithmetic is an open obligation
+    @staticmethod
+    def _in_magic(unit, n, chain):
+        # in attack::rook/bishop themselves, or in an unsafe helper spliced into them (the formula C15/T3 compares is the spliced one)
+        return n[4].fn.def_path in MAGIC_FNS or unit.fn.def_path in MAGIC_FNS or any(
+            (c[1] if isinstance(c, tuple) and len(c) > 1 else c) in MAGIC_FNS or
+            str(c[1] if isinstance(c, tuple) and len(c) > 1 else c).split("::<")[0] in MAGIC_FNS for c in chain)
+
     def ptr_add(self, unit, n, args, st, chain):
-        ok = self.c15_ok and n[4].fn.def_path in MAGIC_FNS
+        ok = self.c15_ok and self._in_magic(unit, n, chain)
         unit.oblige("unsafe", "ptr::add", n[4], chain, ok, "offset bound: C15 rules T1-T4")
 
     def ptr_assert(self, unit, n, st, chain):
-        ok = self.c15_ok and n[4].fn.def_path in MAGIC_FNS
+        ok = self.c15_ok and self._in_magic(unit, n, chain)
         unit.oblige("unsafe", "pointer " + n[1], n[4], chain, ok, "pointer into a static table at an in-bounds offset (C15)")
 
     def push_unchecked(self, unit, n, args, st, chain):
